@@ -153,6 +153,71 @@ def gate2_stage(ctx, rng, scratch, cdir, gconsts, nfiles):
     return res
 
 
+def instants_stage(ctx, rng, scratch, gconsts, sweeps, nsmall):
+    """C, in-process: the INSTANT (ns) attributed to every message must not depend on the block size.
+    T = SyslogProcessor as exec_syslogprocessor drives it (one pattern after the analysis), every bs 64..|f|+2 on small
+    files and around the design size on the edge-sweep files; R = bare SyslineReader (all patterns), every bs 1..|f|+2."""
+    out_cov = dict(instant_files=0, instant_runs=0, instant_messages_compared=0, instant_differences=0)
+    small = []
+    for _ in range(nsmall * 3):
+        f, note = G.small_frac_file(rng)
+        if len(f) <= 700:
+            small.append((f, "small-frac " + note))
+        if len(small) >= nsmall:
+            break
+    allf = small + [(f, note) for f, b_, note in sweeps if len(f) <= 20000]
+    orc, oerr = G.oracle_for([f for f, _ in allf], scratch)
+    if orc is None:
+        ctx.obligation_broken("correspondence", "harness c12 run (oracle, instants stage)", oerr)
+        return out_cov
+    s = G.GSession()
+    plan = []
+    design = {f: b_ for f, b_, _ in sweeps}
+    for f, note in allf:
+        if not G.uniform(f, orc):
+            continue                                  # outside the single-notation domain
+        s.add("F\t" + f.hex())
+        n = len(f)
+        if f in design:
+            b_ = design[f]
+            tb = sorted(set([b_, b_ + 1, max(64, b_ - 1), 2 * b_, 3 * b_ + 1]))
+            rb = sorted(set([b_, b_ + 1, b_ - 1, 2 * b_, 33, 17])) if n <= 6000 else []
+        else:
+            tb = list(range(64, n + 3))
+            rb = list(range(1, n + 3))
+        rows = [("T", REF_BS, s.add("T\t%d" % REF_BS)), ("R", REF_BS, s.add("R\t%d" % REF_BS))]
+        rows += [("T", b, s.add("T\t%d" % b)) for b in tb] + [("R", b, s.add("R\t%d" % b)) for b in rb]
+        plan.append((f, note, rows))
+    out, err = s.run(scratch, timeout=900)
+    if out is None:
+        ctx.obligation_broken("correspondence", "harness c12 run (instants stage)", err)
+        return out_cov
+    for f, note, rows in plan:
+        out_cov["instant_files"] += 1
+        ref = {}
+        for kind, b, i in rows:
+            st, items = G.parse_items_ns(out[i])
+            out_cov["instant_runs"] += 1
+            if b == REF_BS and kind not in ref:
+                ref[kind] = (st, items)
+                continue
+            rst, ritems = ref[kind]
+            out_cov["instant_messages_compared"] += len(items)
+            if (st, items) == (rst, ritems):
+                continue
+            cls = []
+            if kind == "T" and st != rst and st in G.GATE_CODES and rst in G.GATE_CODES:
+                cls = G.class_names(f, orc, b if st != "FileOk" else REF_BS, gconsts)
+            out_cov["instant_differences"] += 1
+            if out_cov["instant_differences"] <= 10:
+                k = next((j for j, (a_, b_) in enumerate(zip(ritems, items)) if a_ != b_), None)
+                ctx.failure(dict(file_hex=f.hex() if len(f) <= 8192 else None, file_len=len(f), note=note, blocksz=b,
+                                 instants=kind, reference_blocksz=REF_BS),
+                            "%s at %d: %s, %d messages%s" % (kind, REF_BS, rst, len(ritems), "" if k is None else ", message %d = (begin, end, ns) %s" % (k, ritems[k])),
+                            "%s at %d: %s, %d messages%s" % (kind, b, st, len(items), "" if k is None else ", message %d = %s" % (k, items[k])), cls)
+    return out_cov
+
+
 def run(ctx):
     quick = ctx.quick()
     rng = ctx.rng
@@ -316,50 +381,91 @@ def run(ctx):
             head = U.ts(0) + b" |first\n" + U.ts(0) + b" |second\n \n"
             tab = dict(tab); tab[U.ts(0) + b" |first\n"] = U.instant(0); tab[U.ts(0) + b" |second\n"] = U.instant(0)
             files.append((head + f, tab, "around-default-blocksz", BIN_BS))
+    # instants across block edges: single-notation logs with 1..9 fractional digits / zone forms of several lengths in
+    # which, for the design block size, an edge falls at every position of some later line's timestamp
+    sweep_plan = [(64, None), (65, None), (127, None), (128, None), (4096, None)] if quick else \
+                 [(b_, (st_, z_)) for b_ in (64, 65, 127, 128, 256, 4096) for st_ in ("iso", "space", "bracket")
+                  for z_ in (G.ZONE_FORMS if st_ != "bracket" else [b""])]
+    sweeps = []
+    for b_, sz in sweep_plan:
+        st_, z_ = sz if sz else (rng.choice(G.FRAC_STYLES), rng.choice(G.ZONE_FORMS))
+        f = G.sweep_file(rng, b_, st_, z_ if st_ != "bracket" else b"")
+        sweeps.append((f, b_, "edge-sweep bs=%d %s zone=%r" % (b_, st_, z_.decode())))
+        files.append((f, None, sweeps[-1][2], sorted(set([b_, b_ + 1, max(64, b_ - 1), 2 * b_, 0x10000]))))
+    VARIANTS = [("plain", []), ("instants", ["-u", "-d", G.DT_FORMAT])]
     bin_runs = bin_diff = 0
     nontrivial = set()
+    tasks = []
     for fi, (f, tab, note, bss) in enumerate(files):
         if len(f) <= consts["FILE_TOO_SMALL_SZ"]:
             continue
         path = os.path.join(scratch, "b%04d.log" % fi)
         with open(path, "wb") as fh:
             fh.write(f)
-        rc0, out0, err0 = U.run_binary(path, None)
-        bin_runs += 1
+        for vn, va in VARIANTS:
+            for bs in [None] + list(bss):
+                tasks.append((fi, vn, bs, path, va))
+
+    def run_task(t):
+        fi, vn, bs, path, va = t
+        args = ["--color", "never"] + va + (["--blocksz", str(bs)] if bs is not None else []) + [path]
+        return vlib.run_s4(args, timeout=120, env={"TZ": "UTC"})
+    import concurrent.futures
+    with concurrent.futures.ThreadPoolExecutor(max_workers=max(2, vlib.NCPU // 2)) as ex:
+        results = list(ex.map(run_task, tasks))
+    res = {(t[0], t[1], t[2]): r for t, r in zip(tasks, results)}
+    bin_runs = len(tasks)
+    instants_lines = 0
+    for fi, (f, tab, note, bss) in enumerate(files):
+        if (fi, "plain", None) not in res:
+            continue
+        path = os.path.join(scratch, "b%04d.log" % fi)
+        failed_here = False
         for bs in bss:
-            rc, o, e = U.run_binary(path, bs)
-            bin_runs += 1
             off = 0
             for l in U.py_lines(f):
                 en = off + len(l) - 1
                 if off % bs in (0, 1, bs - 1) or en % bs in (0, 1, bs - 1) or off // bs != en // bs:
                     nontrivial.add((bs, f))
                 off += len(l)
-            if rc == 124 or o != out0 or rc != rc0:
-                bin_diff += 1
-                cls = []
-                # classes from the per-row oracle of the real patterns (harness c12 `M` on the file's lines)
-                orc, oerr = G.oracle_for([f], scratch)
-                if orc is None:
-                    ctx.obligation_broken("correspondence", "harness c12 run (oracle of a differing file)", oerr)
-                    orc = {}
-                if rc != 124 and rc == rc0:
-                    if o == b"" and out0 != b"":
-                        cls = G.class_names(f, orc, bs, gconsts)
-                    elif out0 == b"" and o != b"":
-                        cls = G.class_names(f, orc, U.BLOCKSZ_DEF, gconsts)
-                    else:
-                        # both sizes print, differently: only a different CHOSEN ROW (F3d) explains it
-                        cls = [c for c in set(G.class_names(f, orc, bs, gconsts) + G.class_names(f, orc, U.BLOCKSZ_DEF, gconsts))
-                               if c == G.CLASS_F3D]
-                ctx.failure(dict(file_hex=f.hex() if len(f) <= 4096 else None, file_len=len(f), note=note, blocksz=bs,
-                                 dated={k_.hex(): v for k_, v in list((tab or {}).items())[:8]}, replay_file=path),
-                            "stdout at the default block size: rc=%s, %d bytes" % (rc0, len(out0)),
-                            "stdout at --blocksz %d: rc=%s, %d bytes" % (bs, rc, len(o)), cls)
-        if not ctx.failures:
+            for vn, va in VARIANTS:
+                rc0, out0, err0 = res[(fi, vn, None)]
+                rc, o, e = res[(fi, vn, bs)]
+                if vn == "instants":
+                    instants_lines += o.count(b"\n")
+                if rc == 124 or o != out0 or rc != rc0:
+                    if vn == "instants" and res[(fi, "plain", bs)][1] != res[(fi, "plain", None)][1]:
+                        continue                      # already reported by the plain variant
+                    bin_diff += 1
+                    failed_here = True
+                    cls = []
+                    # classes from the per-row oracle of the real patterns (harness c12 `M` on the file's lines)
+                    orc, oerr = G.oracle_for([f], scratch)
+                    if orc is None:
+                        ctx.obligation_broken("correspondence", "harness c12 run (oracle of a differing file)", oerr)
+                        orc = {}
+                    if rc != 124 and rc == rc0:
+                        if o == b"" and out0 != b"":
+                            cls = G.class_names(f, orc, bs, gconsts)
+                        elif out0 == b"" and o != b"":
+                            cls = G.class_names(f, orc, U.BLOCKSZ_DEF, gconsts)
+                        else:
+                            # both sizes print, differently: only a different CHOSEN ROW (F3d) explains it
+                            cls = [c for c in set(G.class_names(f, orc, bs, gconsts) + G.class_names(f, orc, U.BLOCKSZ_DEF, gconsts))
+                                   if c == G.CLASS_F3D]
+                    first_diff = next((i for i, (a_, b_) in enumerate(zip(out0.split(b"\n"), o.split(b"\n"))) if a_ != b_), None)
+                    ctx.failure(dict(file_hex=f.hex() if len(f) <= 8192 else None, file_len=len(f), note=note, blocksz=bs,
+                                     options=va, first_differing_output_line=first_diff,
+                                     dated={k_.hex(): v for k_, v in list((tab or {}).items())[:8]}, replay_file=path),
+                                "stdout at the default block size (%s): rc=%s, %d bytes%s" % (vn, rc0, len(out0),
+                                    "" if first_diff is None else ", line %d = %r" % (first_diff, out0.split(b"\n")[first_diff][:80])),
+                                "stdout at --blocksz %d (%s): rc=%s, %d bytes%s" % (bs, vn, rc, len(o),
+                                    "" if first_diff is None else ", line %d = %r" % (first_diff, o.split(b"\n")[first_diff][:80])), cls)
+        if not failed_here and not ctx.failures:
             os.remove(path)
-
-    t_stage["C2 binary"] = round(time.time() - t0, 1)
+    t_stage["C2 binary"] = round(time.time() - t0, 1); t0 = time.time()
+    c3 = instants_stage(ctx, rng, scratch, gconsts, sweeps, 6 if quick else 60)
+    t_stage["C3 in-process instants"] = round(time.time() - t0, 1)
     for fi, bs, row in plan:
         if bs != REF_BS:
             nontrivial.add((bs, all_small[fi]))
@@ -382,7 +488,8 @@ def run(ctx):
         gate2_cases=g2["cases"], gate2_files=g2["files"], gate2_disagreements=g2["dis"], gate2_result_histogram=g2["hist"],
         gate2_class_histogram=g2["classes"], gate2_mixed_cases=g2["mixed"], gate2_second_pass_cases=g2["second_pass"],
         gate2_ezcheck_matches_checked=g2["ez_checked"], gate2_notations=[nf.__name__ for nf in G.NOTATIONS],
-        binary_runs=bin_runs, binary_files=len(files), binary_differences=bin_diff, stage_seconds=t_stage)
+        binary_runs=bin_runs, binary_files=len(files), binary_differences=bin_diff, binary_variants=[v for v, _ in VARIANTS],
+        binary_instant_lines_compared=instants_lines, edge_sweep_files=len(sweeps), **c3, stage_seconds=t_stage)
     ctx.assumptions += [
         "`dated` oracle and unmodelled caches as for C02",
         "block-zero acceptance: per-row / per-slice match oracle (the regex engine); the EZCHECK theorems assume that a match of a row with a four-digit year contains '1' or '2' and a match of a row with a two-digit field contains two consecutive digits (validated on every observed match of the run); check_store of find_sysline_in_block is not modelled (it always misses in the call sequence of the analysis)",
@@ -399,16 +506,26 @@ def replay(ctx, path):
     rc_all = 0
     for fl in r.get("failures", []):
         c = fl["case"]
-        if c.get("file_hex") is None:
-            print("replay: file not embedded (len %s); see %s" % (c.get("file_len"), c.get("replay_file")))
-            continue
         if c.get("note") == "EZCHECK hypothesis":
             gs = G.GSession(); gs.add("M\t" + c["line_hex"])
             out, err = gs.run(scratch)
             print("replay oracle of line %s: %s" % (c["line_hex"], out[0] if out else err))
             rc_all = 1
             continue
+        if c.get("file_hex") is None:
+            print("replay: file not embedded (len %s); see %s" % (c.get("file_len"), c.get("replay_file")))
+            continue
         f = bytes.fromhex(c["file_hex"])
+        if c.get("instants") in ("T", "R"):
+            gs = G.GSession(); gs.add("F\t" + f.hex())
+            gs.add("%s\t%d" % (c["instants"], c["reference_blocksz"])); gs.add("%s\t%d" % (c["instants"], c["blocksz"]))
+            out, err = gs.run(scratch)
+            a, b = (G.parse_items_ns(out[1]), G.parse_items_ns(out[2])) if out else (None, None)
+            print("replay in-process instants (%s): at %d -> %s, %s messages ; at %d -> %s, %s messages ; equal=%s" %
+                  (c["instants"], c["reference_blocksz"], a and a[0], a and len(a[1]), c["blocksz"], b and b[0], b and len(b[1]), a == b))
+            if a != b or out is None:
+                rc_all = 1
+            continue
         if c.get("inprocess"):
             gs = G.GSession(); gs.add("F\t" + f.hex()); gs.add("G\t%d" % c["blocksz"]); gs.add("G\t%d" % REF_BS)
             out, err = gs.run(scratch)
@@ -432,8 +549,9 @@ def replay(ctx, path):
         else:
             p = os.path.join(scratch, "replay.log")
             open(p, "wb").write(f)
-            rc0, o0, e0 = U.run_binary(p, None)
-            rc1, o1, e1 = U.run_binary(p, c["blocksz"])
+            opt = ["--color", "never"] + list(c.get("options") or [])
+            rc0, o0, e0 = vlib.run_s4(opt + [p], timeout=120, env={"TZ": "UTC"})
+            rc1, o1, e1 = vlib.run_s4(opt + ["--blocksz", str(c["blocksz"]), p], timeout=120, env={"TZ": "UTC"})
             print("replay binary file_len=%d: default -> %d bytes, --blocksz %d -> %d bytes" % (len(f), len(o0), c["blocksz"], len(o1)))
             if o0 != o1:
                 rc_all = 1
